@@ -1,0 +1,91 @@
+//go:build verif
+
+package bbolt
+
+import (
+	"fmt"
+	"unsafe"
+
+	"go.etcd.io/bbolt/internal/common"
+)
+
+// Accessors that let the external verification harness drive a materialised node (node.go) directly.
+// Compiled only with `-tags verif`.
+
+// VerifNode wraps a node that lives in a stub bucket/transaction carrying only what node.go reads from them:
+// the page size, the fill percentage and the high water mark.
+type VerifNode struct{ n *node }
+
+// VerifInode is one element of a node.
+type VerifInode struct {
+	Flags uint32
+	Key   []byte
+	Value []byte
+	Pgid  uint64
+}
+
+func VerifNewNode(leaf bool, pageSize int, fill float64, mark uint64) *VerifNode {
+	db := &DB{pageSize: pageSize}
+	m := &common.Meta{}
+	m.SetPgid(common.Pgid(mark))
+	tx := &Tx{db: db, meta: m}
+	b := &Bucket{tx: tx, FillPercent: fill}
+	return &VerifNode{&node{bucket: b, isLeaf: leaf}}
+}
+
+func verifGuard(f func()) (panicked string) {
+	defer func() {
+		if r := recover(); r != nil {
+			panicked = fmt.Sprint(r)
+		}
+	}()
+	f()
+	return ""
+}
+
+func (v *VerifNode) Put(oldKey, newKey, value []byte, pgid uint64, flags uint32) string {
+	return verifGuard(func() { v.n.put(oldKey, newKey, value, common.Pgid(pgid), flags) })
+}
+func (v *VerifNode) Del(key []byte)              { v.n.del(key) }
+func (v *VerifNode) Size() int                   { return v.n.size() }
+func (v *VerifNode) SizeLessThan(x uintptr) bool { return v.n.sizeLessThan(x) }
+func (v *VerifNode) Leaf() bool                  { return v.n.isLeaf }
+func (v *VerifNode) Unbalanced() bool            { return v.n.unbalanced }
+func (v *VerifNode) SplitIndex(threshold int) (int, int) {
+	i, sz := v.n.splitIndex(threshold)
+	return int(i), int(sz)
+}
+
+func (v *VerifNode) Inodes() []VerifInode {
+	r := make([]VerifInode, len(v.n.inodes))
+	for i := range v.n.inodes {
+		in := &v.n.inodes[i]
+		r[i] = VerifInode{Flags: in.Flags(), Key: in.Key(), Value: in.Value(), Pgid: uint64(in.Pgid())}
+	}
+	return r
+}
+
+// Split runs node.split and returns the pieces (the first one is the receiver itself).
+func (v *VerifNode) Split(pageSize int) []*VerifNode {
+	var r []*VerifNode
+	for _, p := range v.n.split(uintptr(pageSize)) {
+		r = append(r, &VerifNode{p})
+	}
+	return r
+}
+
+// Write runs node.write into a zeroed buffer of npages pages whose id and overflow are set first,
+// as tx.allocate hands it to spill.
+func (v *VerifNode) Write(pgid uint64, npages int) (buf []byte, panicked string) {
+	buf = make([]byte, npages*v.n.bucket.tx.db.pageSize)
+	p := (*common.Page)(unsafe.Pointer(&buf[0]))
+	p.SetId(common.Pgid(pgid))
+	p.SetOverflow(uint32(npages - 1))
+	panicked = verifGuard(func() { v.n.write(p) })
+	return buf, panicked
+}
+
+// Read runs node.read on a page image.
+func (v *VerifNode) Read(img []byte) string {
+	return verifGuard(func() { v.n.read((*common.Page)(unsafe.Pointer(&img[0]))) })
+}
